@@ -635,6 +635,52 @@ def o9(rep):
                           "truncated file, and the re-run exits 0 with it" % name, detail={"cfg_path": p[:10]})
 
 
+def o10_digest(f):
+    base = f.unit.split("/")[-1]
+    out = {"nfun": 0, "sites": []}
+    for name, fn in f.funcs.items():
+        if "body" not in fn or not fn.get("file", "").endswith(base):
+            continue
+        out["nfun"] += 1
+        for c in calls(fn["body"]):
+            if c.get("callee") in ("setvbuf", "setbuf", "setbuffer") and len(c["c"]) >= 3:
+                b = strip(c["c"][2])
+                null = b is None or const_value(c["c"][2]) == 0 or (b["k"] in ("IntegerLiteral", "GNUNullExpr"))
+                storage = None
+                if not null:
+                    for y in walk(c["c"][2]):
+                        if y["k"] == "DeclRefExpr":
+                            storage = y["n"]
+                out["sites"].append((name, c["l"], c["callee"], null, storage))
+    return out
+
+
+def o10(rep):
+    """Each open output has its own buffer: stdio allocates one per stream.  A buffer supplied by the program (setvbuf, setbuf)
+    is storage the program must keep private to that stream for as long as it is open -- one array handed to every stream
+    opened for writing is shared by any two that are open at once (with -Csmax the header stays open while the numbered parts
+    are written), and the header is flushed with the last part's bytes: every write succeeds, the close succeeds, the exit
+    status is 0 and a requested output has the wrong content.  No setvbuf/setbuf in the compiler supplies storage."""
+    dig = common.map_units(common.compiler_units(), o10_digest, "compiler", all_trees=True)
+    nfun = sum(d["nfun"] for d in dig.values())
+    n = 0
+    for u in sorted(dig):
+        base = u.split("/")[-1]
+        for name, line, callee, null, storage in dig[u]["sites"]:
+            if null:
+                rep.ok("O10", "stream-buffer-private:%s:%s@%d" % (base, name, line))
+                continue
+            n += 1
+            rep.violation("O10", "stream-buffer-private:%s:%s" % (base, name), "%s:%d (%s)" % (base, line, name),
+                          "%s gives the stream the program's own storage `%s`: every stream this function opens gets the same "
+                          "array, so two outputs open at once (the split header and a numbered part under -Csmax) overwrite each "
+                          "other's pending bytes; no write fails and the compiler exits 0 with a header holding part of a C file"
+                          % (callee, storage))
+    rep.floor("functions scanned for stream buffers", nfun, 5000)
+    if n == 0:
+        rep.ok("O10", "stream-buffer-private:none", sample={"functions": nfun})
+
+
 def o8(rep):
     """The last step of an output written under a temporary name is the move to the requested name (emitFileRename ->
     fileRename -> osFileRename = rename(2)).  A failed move (the requested name is a directory, a read-only directory, ...)
@@ -762,6 +808,7 @@ def run(tier, only=None):
     o6(rep)
     o8(rep)
     o9(rep)
+    o10(rep)
     from . import staticbuf
     staticbuf.report(rep, "O7")        # file names handed to rename/remove/open are distinct strings
     return rep
